@@ -198,7 +198,7 @@ def worker(job):
 def main(chk, tier, seed):
     chk.rule = RULE
     chk.assumptions = ["lossy but convertible numerics (float given for an int parameter, bool) may be converted or rejected"]
-    n = 12000 if tier == "quick" else 120000
+    n = 12000 if tier == "quick" else 600000
     common.run_chunked(chk, "c28", n, nchunks=16 if tier == "quick" else 64, timeout=3000)
     chk.inconclusive_if(len(chk.extra.get("algorithms", {})) < 10, "fewer than 10 algorithm modules exercised")
     chk.inconclusive_if(len(chk.extra.get("apis", {})) < 4, "not all entry points exercised")
